@@ -14,12 +14,27 @@
                       variable was bound holds the operation, one fulfilled before
                       holds the (now bound) variable.  The two follow to the same
                       type; nothing else differs.
-   Does not depend on the order: see Infer/SchedIndepElimR.v (one re-check round). *)
+   Does not depend on the order (proved in Infer/SchedIndepElimR.v, exported
+   below): the outcome of ONE re-check round [check_constraints v], including
+   all the rounds nested in it, under ANY two schedules:
+     [round_indep]        both runs succeed with stores that agree on all cells,
+                          all constraint sets and all constraint records up to
+                          the raw reference of fulfilled elimination constraints
+                          ([eqk]); or both fail; or one of them ran out of fuel;
+     [round_indep_fuel]   with 5 * und s + 5 units of fuel: both succeed ([eqk]) or
+                          both fail with a declared error - never one of each.
+   Hypothesis [RoundPre H s v] on the store in which the round starts
+   ([RoundPre_intro]): well-formed (JE, inv), the alternatives of every
+   elimination constraint pairwise equal-or-incomparable (what minimize leaves),
+   every pending elimination constraint of the set of v refers to an unbound
+   variable that points to this set, or is settled (re-checking it is a no-op),
+   and a fulfilled subtype constraint of the set holds. *)
 From Coq Require Import List Arith Bool Lia.
 Import ListNotations.
-From TF Require Import Base.Hier Base.Ty Infer.Store Infer.Engine Infer.Run Infer.Sound
-  Infer.SoundSub Infer.SoundElimS.
-From TF Require Infer.FitsEngineList.
+From TF Require Import Base.Hier Base.Ty Infer.Store Infer.Engine Infer.Run Infer.Inv Infer.Sound
+  Infer.SchedIndep Infer.SoundSub Infer.SoundElimS Infer.SoundElimK Infer.SoundElim Infer.TermElim
+  Infer.SchedIndepElimA Infer.SchedIndepElimR.
+From TF Require Infer.Lub Infer.FitsEngineList.
 
 (* small helpers to establish membership in the class *)
 Lemma gd_intro H b : variance H b = [] -> b <> Top -> b <> Bottom -> FL.good H b.
@@ -107,4 +122,150 @@ Theorem ref_refuted : exists H prog sc1 sc2, progE H 0 prog /\
   map k_ref (constrs (snd r2)) = [V 0; V 0; V 0].
 Proof.
   exists rH, rprog, [], [0; 1]. split; [exact rprog_progE|]. vm_compute. repeat split; reflexivity.
+Qed.
+
+
+(* ================================================================== *)
+(* one re-check round is independent of the schedule                    *)
+(* ================================================================== *)
+Definition RoundPre (H : hier) (s : store) (v : nat) : Prop :=
+  Pre H (c_cs (cell_of s v)) s s.
+
+Theorem round_indep H (W : wf_hier H) f1 f2 v s sc1 sc2 : RoundPre H s v ->
+  match check_constraints H f1 v (with_sched s sc1), check_constraints H f2 v (with_sched s sc2) with
+  | MOk _ t1, MOk _ t2 => eqk t1 t2
+  | MOk _ _, MEr e _ => e = EFuel
+  | MEr e _, MOk _ _ => e = EFuel
+  | MEr _ _, MEr _ _ => True
+  end.
+Proof.
+  intros P.
+  assert (So : forall sc, startok s (with_sched s sc)).
+  { intros sc. destruct P as (L & _). split; [reflexivity|split; [reflexivity|split; [reflexivity|]]].
+    apply inv_sched. apply L. }
+  exact (round_unique H W (c_cs (cell_of s v)) s P f1 f2 v _ _ (So sc1) (So sc2) eq_refl).
+Qed.
+
+Theorem round_indep_fuel H (W : wf_hier H) f1 f2 v s sc1 sc2 : RoundPre H s v ->
+  5 * und s + 5 <= f1 -> 5 * und s + 5 <= f2 ->
+  match check_constraints H f1 v (with_sched s sc1), check_constraints H f2 v (with_sched s sc2) with
+  | MOk _ t1, MOk _ t2 => eqk t1 t2
+  | MEr e1 _, MEr e2 _ => e1 <> EFuel /\ e2 <> EFuel
+  | _, _ => False
+  end.
+Proof.
+  intros P L1 L2. pose proof (round_indep H W f1 f2 v s sc1 sc2 P) as R.
+  assert (C : forall v, chain s (V v)) by (apply inv_chain with (b := true); apply P).
+  assert (K : KW H s) by apply P.
+  assert (C' : forall sc v, chain (with_sched s sc) (V v)) by (intros sc v0; apply (@chain_vars_eq s (with_sched s sc) eq_refl); apply C).
+  pose proof (cc_nofuel_elim H f1 v (with_sched s sc1) (C' sc1) K L1) as N1.
+  pose proof (cc_nofuel_elim H f2 v (with_sched s sc2) (C' sc2) K L2) as N2.
+  destruct (check_constraints H f1 v (with_sched s sc1)) as [u1 t1|e1 t1],
+           (check_constraints H f2 v (with_sched s sc2)) as [u2 t2|e2 t2]; auto; congruence.
+Qed.
+
+(* the hypothesis in elementary terms *)
+Theorem RoundPre_intro H s v : JE H s -> invb true s ->
+  (forall c l, c < length (constrs s) -> k_elim (constr_of s c) = true ->
+     k_alts (constr_of s c) = FL.obs l -> PI H l) ->
+  (forall c w, In c (cset_of s (c_cs (cell_of s v))) -> k_elim (constr_of s c) = true ->
+     k_done (constr_of s c) = false -> follow s (k_ref (constr_of s c)) = V w ->
+     (w < length (vars s) /\ c_bound (cell_of s w) = None /\ c_cs (cell_of s w) = c_cs (cell_of s v)) \/
+     stlE H s c) ->
+  (forall c, In c (cset_of s (c_cs (cell_of s v))) -> k_elim (constr_of s c) = false ->
+     k_done (constr_of s c) = true -> pfc H 4 s (constr_of s c) = PDone) ->
+  RoundPre H s v.
+Proof.
+  intros J I Pi Hr Sd. split; [|split].
+  - constructor; [exact I|apply JE_b; exact J|apply CW_KW; exact J|exact Pi].
+  - exact Hr.
+  - exact Sd.
+Qed.
+
+(* ================================================================== *)
+(* non-vacuity: a reachable round with three interacting constraints    *)
+(* ================================================================== *)
+Lemma rH_wf : wf_hier rH.
+Proof.
+  split.
+  - intros o p. cbn. repeat (destruct o as [|o]; try discriminate; cbn); intros [= <-]; auto with arith.
+  - intros o p. cbn. repeat (destruct o as [|o]; try discriminate; cbn); intros [= <-]; cbn; repeat split; discriminate.
+  - split; reflexivity.
+  - split; reflexivity.
+  - reflexivity.
+Qed.
+
+(* the signature instantiated and applied to (A ** A): x <= A, three constraints pending *)
+Definition rpre := [CInst rsig; CInst (mkSchema 0 (SOp Function [rb 5; rb 5]) []); CApply 0 1 false].
+Definition rrun := Eval vm_compute in run_cmds rH 200 rpre 0 [] (empty_store []).
+Definition rs := snd rrun.
+(* the store in which above(x, B1) starts its re-check round: the lower bound is set *)
+Definition rse := set_cell rs 0 (mkCell false None (Some 7) (Some 5) 0).
+
+Lemma rpre_progE : progE rH 0 rpre.
+Proof.
+  pose proof rprog_progE as P. cbn [progE rprog rpre] in *. tauto.
+Qed.
+
+Lemma rse_pre : RoundPre rH rse 0.
+Proof.
+  assert (R : run_cmds rH 200 rpre 0 [] (empty_store []) = (None, snd (fst rrun), rs)) by (vm_compute; reflexivity).
+  destruct (elim_final rH rH_wf 200 [] rpre _ rs rpre_progE R) as (I & _ & J & _).
+  assert (Bk : Sound.bok rH (mkCell false None (Some 7) (Some 5) 0)).
+  { split; [|split].
+    - intros l [= <-]. repeat split; discriminate.
+    - intros u [= <-]. repeat split; discriminate.
+    - intros l u [= <-] [= <-]. right; right. eapply anc_step; [reflexivity|]. eapply anc_step; [reflexivity|]. apply anc_refl. }
+  apply RoundPre_intro.
+  - apply JE_set_cell; [exact J|exact Bk|discriminate].
+  - unfold rse. apply inv_set_cell.
+    + exact I.
+    + cbn [c_lower]. discriminate.
+    + cbn [c_upper]. discriminate.
+    + left. reflexivity.
+    + intros t Ht. cbn [c_bound] in Ht. discriminate.
+    + intros _ _. vm_compute. auto with arith.
+  - intros c l _ E Ea.
+    assert (Hc : c = 0 \/ c = 1 \/ c = 2).
+    { destruct c as [|[|[|c]]]; auto. exfalso. unfold constr_of, rse, rs in E. cbn in E. destruct c; discriminate. }
+    assert (PIl : forall x y, x <> y -> FL.le rH x y = false -> FL.le rH y x = false -> PI rH [x; y]).
+    { intros x y N L1 L2 a b Ha Hb Le. cbn in Ha, Hb. destruct Ha as [<-|[<-|[]]], Hb as [<-|[<-|[]]]; auto; congruence. }
+    destruct Hc as [->|[->| ->]].
+    + change (k_alts (constr_of rse 0)) with (FL.obs [7; 8]) in Ea. apply obs_inj in Ea. subst l.
+      apply PIl; [discriminate|reflexivity|reflexivity].
+    + change (k_alts (constr_of rse 1)) with (FL.obs [6; 9]) in Ea. apply obs_inj in Ea. subst l.
+      apply PIl; [discriminate|reflexivity|reflexivity].
+    + change (k_alts (constr_of rse 2)) with (FL.obs [6; 10]) in Ea. apply obs_inj in Ea. subst l.
+      apply PIl; [discriminate|reflexivity|reflexivity].
+  - intros c w Hc E D Ef. left. change (cset_of rse (c_cs (cell_of rse 0))) with [0; 1; 2] in Hc.
+    assert (w = 0).
+    { destruct Hc as [<-|[<-|[<-|[]]]];
+        [change (follow rse (k_ref (constr_of rse 0))) with (V 0) in Ef
+        |change (follow rse (k_ref (constr_of rse 1))) with (V 0) in Ef
+        |change (follow rse (k_ref (constr_of rse 2))) with (V 0) in Ef]; congruence. }
+    subst w. split; [cbn; auto with arith|split; reflexivity].
+  - intros c Hc E D. exfalso. change (cset_of rse (c_cs (cell_of rse 0))) with [0; 1; 2] in Hc.
+    destruct Hc as [<-|[<-|[<-|[]]]]; discriminate E.
+Qed.
+
+(* the round succeeds; the first schedule leaves the operation, the second the
+   variable as reference of the third constraint, everything else is the same *)
+Example rse_round :
+  (forall f1 f2 sc1 sc2, 20 <= f1 -> 20 <= f2 ->
+     match check_constraints rH f1 0 (with_sched rse sc1), check_constraints rH f2 0 (with_sched rse sc2) with
+     | MOk _ t1, MOk _ t2 => eqk t1 t2
+     | MEr e1 _, MEr e2 _ => e1 <> EFuel /\ e2 <> EFuel
+     | _, _ => False
+     end) /\
+  und rse = 3 /\ cset_of rse (c_cs (cell_of rse 0)) = [0; 1; 2] /\
+  (exists t1 t2, check_constraints rH 20 0 (with_sched rse []) = MOk tt t1 /\
+                 check_constraints rH 20 0 (with_sched rse [1]) = MOk tt t2 /\
+                 map k_ref (constrs t1) = [V 0; V 0; O 7 []] /\ map k_ref (constrs t2) = [V 0; V 0; V 0] /\
+                 map k_done (constrs t1) = [true; true; true] /\
+                 c_bound (cell_of t1 0) = Some (O 7 [])).
+Proof.
+  split; [|split; [reflexivity|split; [reflexivity|]]].
+  - intros f1 f2 sc1 sc2 L1 L2. apply (round_indep_fuel rH rH_wf f1 f2 0 rse sc1 sc2 rse_pre); exact L1 || exact L2.
+  - eexists. eexists. split; [vm_compute; reflexivity|split; [vm_compute; reflexivity|]].
+    vm_compute. repeat split; reflexivity.
 Qed.
